@@ -9,7 +9,7 @@ from . import encode, genpel, project, seams
 REFS = ['BD8D1001', 'BD8D1002', 'BC8A1001', '11001001', 'BD701001', 'B1811001']
 
 
-def mk_pel(rng, eid, plid=None, bmc=None, ref=None, sev=0x40, flags=0x2000, creator='O', extra_secs=True):
+def mk_pel(rng, eid, plid=None, bmc=None, ref=None, sev=0x40, flags=0x2000, creator='O', extra_secs=True, lead=False):
     pel = genpel.gen_pel(rng, kinds=[], creator=creator, sev=sev, flags=flags, eid=encode.u32(eid))
     pel['ph']['plid'] = encode.u32(plid if plid is not None else eid)
     pel['ph']['bmc'] = encode.u32(bmc if bmc is not None else eid & 0xFFFF)
@@ -18,6 +18,10 @@ def mk_pel(rng, eid, plid=None, bmc=None, ref=None, sev=0x40, flags=0x2000, crea
     secs = [s]
     if extra_secs:
         secs += [genpel.gen_eh(rng), genpel.gen_ud(rng, creator=creator)][: rng.randrange(0, 3)]
+    r = rng.random()
+    if lead and r < .35:
+        # something in front of the Primary SRC, with a length that is not a multiple of 4
+        secs = [genpel.gen_other(rng, rng.choice(['MI', 'XX', 'EI'])), genpel.gen_ud(rng, creator=creator)][: rng.randrange(1, 3)] + secs
     pel['secs'] = secs
     return pel
 
@@ -26,7 +30,7 @@ def attrs(pel, name, data):
     """abstract attributes of a PEL file for the judge"""
     return dict(name=project.cp(name), kind='pel', sev=pel['uh']['sev'], flags=encode.b2i(pel['uh']['flags']),
                 eid=pel['ph']['eid'], plid=pel['ph']['plid'], bmc=pel['ph']['bmc'],
-                ref=[c for c in pel['secs'][0]['ascii'][:8]], size=len(data))
+                ref=[c for c in [x for x in pel['secs'] if x['kind'] == 'SRC'][0]['ascii'][:8]], size=len(data))
 
 
 def junk_attrs(name, kind):
